@@ -205,6 +205,10 @@ def written_constants(mon, ds):
 
 
 def shard_main(ctx):
+    if ctx.shard == 1 % ctx.nshards and ctx.tier == "thorough":
+        from ..core import repo_tests_under_monitors
+
+        repo_tests_under_monitors(ctx, "C13")
     capmod = modgen.load(CAP_SRC, "c13cap")
     ds = capmod.DS()
     mon = Mon(ctx)
